@@ -1,6 +1,6 @@
 use anyhow::Result;
 use indexmap::IndexMap;
-use java_string::{JavaStr, JavaString};
+use java_string::{JavaCodePoint, JavaStr, JavaString};
 use duke::tree::annotation::{Annotation, ElementValue, ElementValuePair};
 use duke::tree::class::{ClassFile, ClassName, ClassSignature, EnclosingMethod, InnerClass, ObjClassName, ObjClassNameSlice};
 use duke::tree::descriptor::{ParsedFieldDescriptor, Type};
@@ -295,20 +295,33 @@ impl MappableWithClassName for RecordComponent {
 
 impl Mappable for InnerClass {
 	fn remap(self, remapper: &impl BRemapper) -> Result<Self> {
-		fn map_inner_class_name(remapper: &impl BRemapper, name: &ClassName, outer_class: Option<&ClassName>, inner_name: &JavaString) -> Result<JavaString> {
-			return Ok(inner_name.clone());
-			todo!()
+		/// The simple name a class name spells out: what follows the last `$` of its last `/`-separated part, without the
+		/// digits that javac puts in front of the name of a local class (`Outer$1Local`). `None` if there is no `$`.
+		fn simple_name(name: &ClassName) -> Option<&JavaStr> {
+			let name = name.as_inner();
+			let last_part = name.rsplit_once('/').map_or(name, |(_, last_part)| last_part);
+			let (_, after_dollar) = last_part.rsplit_once('$')?;
+			Some(after_dollar.trim_start_matches(|ch: JavaCodePoint| ch.is_ascii_digit()))
 		}
 
+		/// An inner name that is the simple name the class name spells out is renamed together with the class, to the
+		/// simple name the new class name spells out (as ASM's `Remapper.mapInnerClassName` does). Any other inner name,
+		/// and any inner name of a class whose new name has no `$`, is kept.
+		fn map_inner_class_name(name: &ClassName, new_name: &ClassName, inner_name: JavaString) -> JavaString {
+			if simple_name(name) == Some(inner_name.as_java_str()) {
+				if let Some(new_inner_name) = simple_name(new_name) {
+					return new_inner_name.to_owned();
+				}
+			}
+			inner_name
+		}
+
+		let inner_class = (&self.inner_class).remap(remapper)?;
+		let inner_name = self.inner_name.map(|inner_name| map_inner_class_name(&self.inner_class, &inner_class, inner_name));
 		Ok(InnerClass {
-			inner_class: (&self.inner_class).remap(remapper)?,
+			inner_class,
 			outer_class: self.outer_class.as_ref().remap(remapper)?,
-			inner_name: self.inner_name.map(|inner_name| map_inner_class_name(
-				remapper,
-				&self.inner_class,
-				self.outer_class.as_ref(),
-				&inner_name
-			)).transpose()?,
+			inner_name,
 			flags: self.flags,
 		})
 	}
